@@ -514,7 +514,7 @@ func (w *binaryWriter) beginValue(api string) error {
 			id = uint64(name.LocalSID)
 		} else if name.Text != nil {
 			var err error
-			id, err = w.resolve(api, *name.Text)
+			id, err = w.resolveFromSymbolTable(api, *name.Text)
 			if err != nil {
 				return err
 			}
@@ -537,7 +537,7 @@ func (w *binaryWriter) beginValue(api string) error {
 		var err error
 		for i, a := range as {
 			if a.Text != nil {
-				id, err = w.resolve(api, *a.Text)
+				id, err = w.resolveFromSymbolTable(api, *a.Text)
 				if err != nil {
 					return err
 				}
